@@ -1,7 +1,7 @@
-import Qryn.Read.Params
+import Qryn.ReadSide.Params
 import Qryn.Gen.ReadSide
 namespace Driver.C12
-open Qryn.Read Qryn.Gen
+open Qryn.ReadSide Qryn.Gen
 
 def list? {α} (f : String → Option α) (s : String) : Option (List α) :=
   if s = "-" then some [] else (s.splitOn ",").mapM f
